@@ -44,6 +44,7 @@ def run(ctx):
     ctx.floor('exp sites on query paths', n_exp, 5)
     check_project(ctx, repo.nfunc(GM, 'GraphicalModel.project'))
     check_many(ctx, repo.nfunc(GM, 'GraphicalModel.calculate_many_marginals'))
+    check_pair_schedule(ctx, repo.nfunc(GM, 'GraphicalModel.calculate_many_marginals'))
     check_datavector(ctx, repo.nfunc(GM, 'GraphicalModel.datavector'))
     check_krondot(ctx, repo.nfunc(GM, 'GraphicalModel.krondot'))
     check_cache(ctx)
@@ -288,6 +289,87 @@ def check_many(ctx, fi):
     ok = any(isinstance(x, ast.If) and isinstance(getattr(x, '_parent', None), ast.For) and isinstance(x._parent.target, ast.Name)
              and is_subset_test(x.test, p, x._parent.target.id) for x in ast.walk(loops[0]))
     ctx.ob('requested-order', fi, loops[0], ok, 'a pairwise joint answers only requests it contains')
+
+
+def check_pair_schedule(ctx, fi):
+    """The joint of a clique pair (Ci, Cj) is built from the joint of (Ci, Cl), Cl the clique before Cj on the tree path: that joint
+    must already be in the table when it is read.  Two schedules are known to guarantee it: all pairs sorted by tree distance with the
+    all-pairs predecessor matrix; or the pairs of `self.cliques` in list order with the parent map of a depth-first search from
+    self.cliques[0] - valid because self.cliques IS that depth-first preorder (C12 checks it)."""
+    from ..srcmodel import alpha_text, alpha_of
+    loop = None
+    for s in walk_shallow(fi.node):
+        if isinstance(s, ast.For) and isinstance(s.target, ast.Tuple) and len(s.target.elts) == 2 and all(isinstance(e, ast.Name) for e in s.target.elts):
+            ci, cj = [e.id for e in s.target.elts]
+            stores = [t for a in ast.walk(s) if isinstance(a, ast.Assign) for t in a.targets
+                      if isinstance(t, ast.Subscript) and isinstance(t.slice, ast.Tuple) and [U(e) for e in t.slice.elts] == [ci, cj]]
+            if stores:
+                loop = (s, ci, cj, U(stores[0].value))
+    if loop is None:
+        raise AnalysisError('calculate_many_marginals: loop over clique pairs not found')
+    lp, ci, cj, table = loop
+    reads = [n for n in ast.walk(lp) if isinstance(n, ast.Subscript) and isinstance(n.ctx, ast.Load) and U(n.value) == table
+             and isinstance(n.slice, ast.Tuple) and len(n.slice.elts) == 2]
+    mids = {U(n.slice.elts[1]) for n in reads if U(n.slice.elts[0]) == ci} | {U(n.slice.elts[0]) for n in reads if U(n.slice.elts[1]) == ci}
+    mids -= {cj}
+    if len(mids) != 1:
+        raise AnalysisError('calculate_many_marginals: the earlier joint the pair loop builds on was not found (reads of `%s`: %s)'
+                            % (table, sorted(U(n) for n in reads)))
+    mid = mids.pop()
+    mdefs = [a.value for a in ast.walk(lp) if isinstance(a, ast.Assign) and len(a.targets) == 1 and U(a.targets[0]) == mid]
+    if len(mdefs) != 1:
+        raise AnalysisError('calculate_many_marginals: definition of the intermediate clique `%s` not found' % mid)
+    mdef = U(mdefs[0]).replace(' ', '')
+    defs = {}
+    for a in walk_shallow(fi.node):
+        if isinstance(a, ast.Assign) and len(a.targets) == 1:
+            if isinstance(a.targets[0], ast.Name):
+                defs[a.targets[0].id] = a.value
+            elif isinstance(a.targets[0], ast.Tuple):
+                for k, t in enumerate(a.targets[0].elts):
+                    if isinstance(t, ast.Name):
+                        defs[t.id] = ('item', k, a.value)
+    it = lp.iter
+    key = None
+    if isinstance(it, ast.Call) and U(it.func) == 'sorted' and len(it.args) == 1:
+        key = next((k.value for k in it.keywords if k.arg == 'key'), None)
+        it = it.args[0]
+    if isinstance(it, ast.Name) and isinstance(defs.get(it.id), ast.AST):
+        it = defs[it.id]
+    if not (isinstance(it, ast.Call) and U(it.func).split('.')[-1] == 'combinations' and len(it.args) == 2 and U(it.args[1]) == '2'):
+        raise AnalysisError('calculate_many_marginals: pair enumeration `%s` is in no recognised form' % U(lp.iter)[:80])
+    S = U(it.args[0]).replace(' ', '')
+    TREE = ('self.junction_tree.tree',)
+    import re
+    m2 = re.fullmatch(r'(\w+)\[%s\]\[%s\]' % (ci, cj), mdef)
+    m1 = re.fullmatch(r'(\w+)\[%s\]' % cj, mdef)
+    if m2:
+        # all-pairs predecessor matrix: needs the distance-sorted enumeration
+        P = defs.get(m2.group(1))
+        ok_src = isinstance(P, tuple) and P[1] == 0 and isinstance(P[2], ast.Call) and U(P[2].func).split('.')[-1] == 'floyd_warshall_predecessor_and_distance' \
+            and P[2].args and U(P[2].args[0]) in TREE
+        if not ok_src:
+            raise AnalysisError('calculate_many_marginals: predecessor table `%s` is not the all-pairs predecessor matrix of the junction tree' % m2.group(1))
+        dist = [k for k, v in defs.items() if isinstance(v, tuple) and v[1] == 1 and v[2] is P[2]]
+        ok = key is not None and bool(dist) and alpha_text(key) == alpha_of('lambda X: %s[X[0]][X[1]]' % dist[0])
+        ctx.ob('pair-schedule', fi, lp, ok,
+               'with the all-pairs predecessor matrix the clique pairs must be taken in order of tree distance (sorted(.., key=lambda X: dist[X[0]][X[1]])): '
+               'the joint of (%s, %s) is read before the joint of (%s, %s) is stored otherwise; enumeration: `%s`' % (ci, mid, ci, cj, U(lp.iter)[:90]))
+    elif m1:
+        P = defs.get(m1.group(1))
+        if not (isinstance(P, ast.Call) and U(P.func).split('.')[-1] == 'dfs_predecessors' and len(P.args) == 2 and U(P.args[0]) in TREE):
+            raise AnalysisError('calculate_many_marginals: parent map `%s` is not a depth-first parent map of the junction tree' % m1.group(1))
+        root_ok = U(P.args[1]).replace(' ', '') == 'self.cliques[0]'
+        ok = root_ok and key is None and S == 'self.cliques'
+        why = ('the search starts at `%s`, not at self.cliques[0]' % U(P.args[1])) if not root_ok else \
+            ('the pairs are re-sorted' if key is not None else
+             'the pairs are enumerated in the order of `%s`, which is not the depth-first preorder (a caller-supplied container has any order)' % S)
+        ctx.ob('pair-schedule', fi, lp, ok,
+               'with a depth-first parent map the clique pairs must be the pairs of self.cliques in list order (self.cliques is the depth-first '
+               'preorder from self.cliques[0], so the parent of %s comes before it and the joint of (%s, parent) is already stored)%s'
+               % (cj, ci, '' if ok else '; ' + why))
+    else:
+        raise AnalysisError('calculate_many_marginals: intermediate clique `%s = %s` is in no recognised form' % (mid, mdef))
 
 
 def check_datavector(ctx, fi):
